@@ -65,7 +65,11 @@ func hashMuts(field string, get func(pb *kproto.Block) *[]byte, r *rand.Rand) []
 			*p = cpb((*p)[:len(*p)-1])
 			return true
 		}},
-		{field, "random value", func(pb *kproto.Block) bool { p := get(pb); *p = randHash(r)[:minInt(32, maxInt(20, len(*p)))]; return true }},
+		{field, "random value", func(pb *kproto.Block) bool {
+			p := get(pb)
+			*p = randHash(r)[:minInt(32, maxInt(20, len(*p)))]
+			return true
+		}},
 		// not a change of the block: the decoder crops to the rightmost bytes
 		{field, "extra leading byte (same value after decoding)", func(pb *kproto.Block) bool { p := get(pb); *p = append([]byte{0xAA}, *p...); return true }},
 	}
@@ -205,13 +209,13 @@ func (t *tamperCtx) mutations() []mutation {
 			}
 			k := r.Intn(len(pb.Data.Txs))
 			var f struct {
-				Nonce    uint64
-				Price    *big.Int
-				Gas      uint64
-				To       *common.Address `rlp:"nil"`
-				Amount   *big.Int
-				Payload  []byte
-				V, R, S  *big.Int
+				Nonce   uint64
+				Price   *big.Int
+				Gas     uint64
+				To      *common.Address `rlp:"nil"`
+				Amount  *big.Int
+				Payload []byte
+				V, R, S *big.Int
 			}
 			if err := rlp.DecodeBytes(pb.Data.Txs[k], &f); err != nil {
 				return false
